@@ -9,6 +9,7 @@ def fill(s, tag, text):
     b = s.index("<!-- %s-END -->" % tag)
     return s[:a] + "\n" + text.strip() + "\n" + s[b:]
 s = fill(s, "FINDINGS-TABLE", subprocess.run(["python3", os.path.join(ROOT, "lib", "mkfindings.py")], stdout=subprocess.PIPE, text=True).stdout)
+s = fill(s, "BENIGN-TABLE", subprocess.run(["python3", os.path.join(ROOT, "lib", "mkbenigntable.py")], stdout=subprocess.PIPE, text=True).stdout)
 s = fill(s, "SEED-TABLE", subprocess.run(["python3", os.path.join(ROOT, "lib", "mkseedtable.py")], stdout=subprocess.PIPE, text=True).stdout)
 import json, sys
 sys.path.insert(0, os.path.join(ROOT, "lib"))
